@@ -14,6 +14,7 @@ package protocol
 //@   props C08
 //@   panics when len(b) > 20
 //@   ensures [len] int(result.l) == len(b)
+//@   ensures [bytes] forall(k, 0, len(b), result.b[k] == b[k])
 //@   modifies nothing
 
 //@ func (c ConnectionID) Len
